@@ -259,7 +259,7 @@ def c17_oracle(full, io, b):
                 scheme = m.group(1)
                 meta = m.group(3)
                 intended = None if meta in (None, "") else int(meta)
-        elif f[0] == "mod" and f[3] == "with_port" and f[4] not in ("T", "X"):
+        elif f[0] == "mod" and f[3] == "with_port" and f[4] not in ("T", "X", "Z") and not f[4].startswith("D"):
             src = int(f[2])
             sch = v.get(src, "scheme") if False else None
             intended = None if f[4] == "~" else int(f[4])
@@ -270,7 +270,7 @@ def c17_oracle(full, io, b):
                 intended = "?"
         elif f[0] == "mod" and f[3] == "with_port":
             if res.startswith("#"):
-                out.append({"what": f"with_port({'True' if f[4]=='T' else repr('80')}) accepted a non-integer port", "class": "port-accept", "n": n, "input": describe_handle(full, h)})
+                out.append({"what": f"with_port({ {'T': 'True', 'Z': 'False', 'X': repr('80')}.get(f[4], f[4][1:] + '.0') }) accepted a bool / non-integer port", "class": "port-accept", "n": n, "input": describe_handle(full, h)})
             continue
         elif f[0] == "bld":
             kw = dict(a.partition("=")[::2] for a in f[2:])
@@ -348,6 +348,10 @@ def c17_streams(rng, tier, budget):
         base = st.new(f"{sc}://h/p")
         for pv in ("T", "X"):
             st.obs_all(st.mod(base, "with_port", pv), C17_OBS)
+        # invalid arguments that are numerically EQUAL to the port already written
+        for cur, pv in ((1, "T"), (0, "Z"), (80, "D80"), (21, "D21"), (65535, "D65535"), (8080, "D8080")):
+            b2 = st.new(f"{sc}://h:{cur}/p")
+            st.obs_all(st.mod(b2, "with_port", pv), C17_OBS)
         st.obs_all(st.build(scheme=sc, host="h", port=True), C17_OBS)
         st.obs_all(st.build(scheme=sc, host="h", port="80"), C17_OBS)
     for s in ["http://h:", "http://h:+1", "http://h:1_0", "http://h: 80", "http://h:٣", "http://h:abc", "http://h:0x50", "http://h:080", "http://h:80:80", "//h:0", "http://[::1]:"]:
@@ -362,7 +366,8 @@ register(Prop("C17", c17_streams, compare=lambda op: not op.startswith("tag") an
 
 # ------------------------------------------------------------------ C18
 C18_TEXTS = ["", "a", "a b", "é", "日本", "\U0001f600", "a/b", "a?b", "a#b", "a@b", "a:b", "[x]", "a%b", "%41", "a+b", "a&b=c;d", "\x00", "\x7f", "a\tb", "a\nb", "\x85", "‮x", " ",
-             "x​y", "a\\b", "\"<>", "ü@ß:ö", "a／b", "p℀q", "a＠b"]
+             "x​y", "a\\b", "\"<>", "ü@ß:ö", "a／b", "p℀q", "a＠b",
+             "a/b\n", "x/\x7fy", "p/q\u200b", "a?b\x00", "a#b\n", "a@b\x85", "a:b\x00", "[x]\n", "k&v\x01", "a=b\x7f", "a+b\n", "a;b\x00", "%\n"]
 
 
 def c18_streams(rng, tier, budget):
